@@ -422,6 +422,8 @@ void genC12(uint64_t seed, int tier, Scenario& sc) {
     sc.set("flip", r.chance(0.5) ? 1 : 0);
     sc.set("hash_mb", r.chance(0.5) ? 8 : (long long)r.range(8, 64));
     sc.set("traffic", r.logRange(10000, 1000000));
+    // a smaller table may already be resident (its reservation in the hash table must grow for the 4-man table)
+    if (r.chance(0.5)) { sc.setS("pre_key", k3[r.below(k3.size())]); sc.set("pre_flip", r.chance(0.5) ? 1 : 0); }
     int mode = (int)r.below(10);
     if (mode == 0) { sc.set("storage_tt", 0); sc.set("sample_every", tier > 0 ? 1 : 5); }
     else if (mode < 3) { sc.set("storage_tt", 1); sc.set("sample_every", tier > 0 ? 1 : 5); }
